@@ -1,0 +1,30 @@
+//go:build verif
+
+package workflow
+
+// Contracts for package workflow, read by the govc verifier (build tag verif).
+// This file contains no executable code.
+//
+// ---- workflow/yaml.go: turning a well-formed YAML node tree into raw workflow data ----
+//
+//@ func (yamlConverter).FromYAML
+//@   ensures [workflow-or-error] (result1 == nil) != (result == nil)
+//
+//@ func yamlBuildExpressions
+//@   requires wfnode(data)
+//@   decreases data.(*yaml.node), 1
+//@   opt recgroup yamlbuild
+//@   modifies slice path
+//
+//@ func buildOneOfExpressions
+//@   requires wfnode(data)
+//@   decreases data.(*yaml.node), 0
+//@   opt recgroup yamlbuild
+//@   modifies slice path
+//
+//@ func buildExpression
+//@   requires wfnode(data)
+//@ func buildResultOrDisabledExpression
+//@   requires wfnode(data)
+//@ func buildOptionalExpression
+//@   requires wfnode(data)
